@@ -448,6 +448,35 @@ def r6_errors_not_discarded(ctx):
     ctx.ob('C15.R6', 'no-extraction-error-discarded', bad == 0, '', '%d discarding call(s) on the extractors\' own errors (of %d adaptor calls looked at)' % (bad, n_ctrl))
 
 
+def r7_request_head_is_what_hyper_parsed(ctx):
+    ctx.rule('C15.R7', 'P7 provenance of what the extractors are FED: every request goes through `RequestHead::from(http::request::Parts)` before any extractor '
+             'sees it. Each field of the RequestHead (target, method, version, headers) is the like-named part of the request as hyper parsed it, moved — no '
+             'call in between (no "normalisation" of the target). A target rebuilt from `path()` for absolute-form / HTTP/2 requests drops the query string: '
+             '`QueryParams` then sees nothing, optional fields silently become None and malformed input is accepted.')
+    from .c19 import IDENTITY_CONVERSIONS
+    bodies = [b for b in ctx.fb.bodies(CR) if not b.is_promoted and b.nid.startswith('<pavex::request::request_head::RequestHead as core::convert::From') and b.nid.endswith('::from') and b.raw['argc'] == 1 and 'http::request::Parts' in b.locals[1]]
+    if not ctx.need('C15.R7', 'RequestHead: From<http::request::Parts>', bodies):
+        return
+    from ..inline import inlined
+    b = inlined(ctx.fb, bodies[0])
+    defs = Defs(b)
+    n = 0
+    for bb, j, st in b.all_assigns():
+        rv = st['rv']
+        if rv['k'] != 'agg' or rv.get('ak') != 'adt' or not strip_generics(rv['adt']).endswith('request_head::RequestHead'):
+            continue
+        for fname, o in zip(rv.get('fields', []), rv['ops']):
+            n += 1
+            pl = op_place(o)
+            sl, locs = backward_slice(b, pl['l'], defs) if pl is not None else ([], set())
+            cs = sorted({(c or '?').split('::')[-1].split('<')[0] for c, _, _ in slice_calls(sl)})
+            bad = [c for c in cs if c not in IDENTITY_CONVERSIONS]
+            from_parts = 1 in locs or (pl is not None and pl['l'] == 1)
+            ctx.ob('C15.R7', 'request-head-field|%s' % fname, from_parts and not bad, b.loc(bb, st),
+                   'RequestHead.%s comes from the parsed request: %s, through %s%s' % (fname, from_parts, cs or 'a plain move', '' if not bad else ' — NOT identity conversions: %s' % bad))
+    ctx.floor('C15.R7', 'fields of the RequestHead built from the parsed request', n, 3)
+
+
 def check(ctx):
     r1_decode_once(ctx)
     r2_typed_parse(ctx)
@@ -455,3 +484,4 @@ def check(ctx):
     r4_no_panic(ctx)
     r5_value_untouched(ctx)
     r6_errors_not_discarded(ctx)
+    r7_request_head_is_what_hyper_parsed(ctx)
